@@ -92,6 +92,11 @@ def run_one(args):
         if ctx.floor_errors:
             return (mid, prop, "B", "analysis-error", ctx.floor_errors[0], [])
         return (mid, prop, "B", "missed", "", [])
+    elif m.kind == "U":
+        # a correct variant in a shape the rules do not recognise: "undecided" (exit 2) is acceptable, a violation is a false alarm
+        if fails:
+            return (mid, prop, "U", "false-alarm", "%s at %s: %s" % (fails[0][0], fails[0][1], fails[0][3]), fails)
+        return (mid, prop, "U", "undecided" if (und or ctx.floor_errors) else "silent", "", und)
     else:
         if fails:
             return (mid, prop, "E", "false-alarm", "%s at %s: %s" % (fails[0][0], fails[0][1], fails[0][3]), fails)
@@ -127,6 +132,8 @@ def run_corpus(prop=None, ids=None, jobs=None, verbose=False):
             errors.append("mutant %s (%s) must be reported as a violation of %s but was %s %s" % (mid, kind, p, st, detail))
         if kind == "B" and st == "caught-other-rule":
             pass   # reported by a different rule than planned: still a detection
+        if kind == "U" and st == "false-alarm":
+            errors.append("correct variant %s (unfamiliar shape) was reported as a violation of %s: %s" % (mid, p, detail))
         if kind == "E" and st != "silent" and st != "skipped":
             errors.append("behaviour-preserving variant %s raised %s for %s: %s" % (mid, st, p, detail))
     return results, errors
